@@ -29,6 +29,23 @@ RULE = ("case = (layout, source arguments in order, options); layouts: 13 crafte
         "non-trivial = the layout has >= 2 files; distinct by JSON")
 ANSI = re.compile(r"\x1b\[[0-9;]*m")
 BASEPROP = {"QWidget": [("windowTitle", "k")], "QLabel": [("text", "k"), ("windowTitle", "w")], "QPushButton": [("text", "k"), ("toolTip", "w")]}
+# inherited properties whose TYPE lives in the Qt module (a gadget and two enumerations): the type is resolved where the property is declared,
+# whatever the component file or the document imports; (binding text, expected element text) -- the enumerations need the name Qt in the document
+TYPEDPROP = {"QWidget": [("minimumSize { width: 7%d; height: 3 }", "minimumSize", "height=3,width=7%d", False), ("focusPolicy: Qt.StrongFocus", "focusPolicy", "Qt::StrongFocus", True)],
+             "QLabel": [("minimumSize { width: 7%d; height: 3 }", "minimumSize", "height=3,width=7%d", False), ("alignment: Qt.AlignRight | Qt.AlignBottom", "alignment", "Qt::AlignRight|Qt::AlignBottom", True)],
+             "QPushButton": [("minimumSize { width: 7%d; height: 3 }", "minimumSize", "height=3,width=7%d", False), ("focusPolicy: Qt.NoFocus", "focusPolicy", "Qt::NoFocus", True)]}
+VERSIONS = ["5.15", "6", "2.0", "6.2"]
+
+
+def typed_props(lay, k, j, base):
+    """[(binding text, property name, expected text)] for child j of file k"""
+    qt = lay["files"][k].get("qt", "plain") != "none"
+    out = []
+    for text, name, want, needs_qt in TYPEDPROP.get(base, []):
+        if needs_qt and not qt:
+            continue
+        out.append((text % j if "%d" in text else text, name, want % j if "%d" in want else want))
+    return out
 LINKS = {"a": "lnk_a", "b": "lnk_b", "a/s": "lnk_s"}
 TIMEOUTS = []       # non-terminating runs seen so far: after a handful the verdict is clear and the remaining runs are skipped
 
@@ -45,18 +62,22 @@ def spell(own, target, salt):
 
 def file_text(lay, k, expect):
     f = lay["files"][k]
-    lines = ["import qmluic.QtWidgets"]
+    salt0 = int(hashlib.sha1(json.dumps([lay["files"], k]).encode()).hexdigest(), 16)
+    qt = f.get("qt", "plain")
+    lines = [] if qt == "none" else ["import qmluic.QtWidgets" + (" " + VERSIONS[salt0 % len(VERSIONS)] if qt == "versioned" else "")]
     for j, d in enumerate(f["imports"]):
         salt = int(hashlib.sha1(json.dumps([lay["files"], k, j]).encode()).hexdigest(), 16)
         if d == "nodir" and salt % 3 == 2:
             # an aliased import of an existing directory is "not supported": it contributes no types, like a path that is not a directory
             lines.append('import "%s" as Aliased%d' % (os.path.relpath("b", f["dir"]), j))
         else:
-            lines.append('import "%s"' % spell(f["dir"], d, salt))
+            # a version after a directory import is ignored as well
+            lines.append('import "%s"%s' % (spell(f["dir"], d, salt), " " + VERSIONS[(salt >> 8) % len(VERSIONS)] if (salt >> 4) % 4 == 0 else ""))
     body = []
     for j, kid in enumerate(f["kids"]):
-        props = "; ".join('%s: "%s%d"' % (p, v, j) for p, v in BASEPROP.get(expect["bases"][j + 1], []))
-        body.append("    %s { %s }" % (kid, props))
+        props = ['%s: "%s%d"' % (p, v, j) for p, v in BASEPROP.get(expect["bases"][j + 1], [])]
+        props += [t for t, _, _ in typed_props(lay, k, j, expect["bases"][j + 1])]
+        body.append("    %s {\n%s    }" % (kid, "".join("        %s\n" % x for x in props)))
     lines.append("%s {\n%s\n}" % (f["root"], "\n".join(body)))
     return "\n".join(lines) + "\n"
 
@@ -114,6 +135,13 @@ def run_cli(qmluic, root, srcs, outdir, extra=()):
     return p.returncode, p.stderr, outs
 
 
+def value_text(p):
+    v = list(p)[0]
+    if len(v):
+        return ",".join(sorted("%s=%s" % (c.tag, (c.text or "").strip()) for c in v))
+    return (v.text or "").strip()
+
+
 def read_form(data):
     """(custom widget list, root class, [(class, {prop: text})] of the children)"""
     ui = ET.fromstring(data)
@@ -121,7 +149,7 @@ def read_form(data):
     w = ui.find("widget")
     kids = []
     for k in w.findall("widget"):
-        kids.append((k.get("class"), {p.get("name"): (p.findtext("string") or "") for p in k.findall("property")}))
+        kids.append((k.get("class"), {p.get("name"): value_text(p) for p in k.findall("property")}))
     return custom, w.get("class"), kids
 
 
@@ -195,6 +223,9 @@ def one_layout(args):
                     for pn, pv in BASEPROP.get(exp["bases"][j + 1], []):
                         if props.get(pn) != "%s%d" % (pv, j):
                             res["violations"].append(("%s: instance %d of %s does not carry the base-class property %s (found %s)" % (p, j, cls, pn, props), ctx))
+                    for _, pn, want_text in typed_props(lay, k, j, exp["bases"][j + 1]):
+                        if props.get(pn) != want_text:
+                            res["violations"].append(("%s: instance %d of %s does not carry the base-class property %s = %s (found %s)" % (p, j, cls, pn, want_text, props), ctx))
         good = [p for k, p in enumerate(paths) if lay["expect"][k]["accepted"] and single.get(p, (1,))[0] == 0]
         bad = [p for k, p in enumerate(paths) if not lay["expect"][k]["accepted"] and p in single and single[p][0] != 0]
         # the accepted files in several orders: same outputs as alone
